@@ -181,7 +181,12 @@ def f_ungrouped_summarize_aggregates_dropped(prog, idxs, ctx):
             names[st["out"]] = cur
             pruned[st["out"]] = True
             continue
-        if v in ("join", "union", "collect"):
+        if v == "join":
+            # the tracked table is the left operand: its names are unchanged by the join
+            names[st["out"]] = cur
+            pruned[st["out"]] = pruned.get(st["in"], False)
+            continue
+        if v in ("union", "collect"):
             names[st["out"]] = None
             continue
         if v == "mutate":
